@@ -78,6 +78,10 @@ def worker(ck: Check, job):
     k = 3 if quick else 4
     reps, classes = stream_alphabet(ck, code, quick)
     reps = [r for r in reps if r not in ('12',)]
+    if quick and code == 'es':
+        # the Spanish fraction word (value 1/n) makes the policy assertion a hard arithmetic query; the policy does not
+        # distinguish it from other multi-character numerals, so the quick tier leaves it out (thorough keeps it)
+        reps = [r for r in reps if r != 'doceavo']
     if quick and code == 'en':
         # English has the largest alphabet (26 behaviour classes); the quick tier keeps one word per role of the policy
         reps = [r for r in reps if r in EN_QUICK]
@@ -239,7 +243,8 @@ def run(ck: Check):
     run_parallel(ck, worker, jobs)
     ck.bounds['thresholds'] = [repr(t) for t in ths]
     ck.outside += ['streams of more than %d word tokens' % (3 if ck.tier == 'quick' else 4), 'thresholds other than the listed concrete ones',
-                   'tokens that are neither words, whitespace nor punctuation (bare digit strings): not classified by the statement']
+                   'tokens that are neither words, whitespace nor punctuation (bare digit strings): not classified by the statement',
+                   'quick: Spanish fraction words (doceavo)']
     ck.assumptions.append('linking words are those for which the interpreter\'s is_linking answers true on the token text')
     return ('For every stream of k words (solver-chosen words and separators) find_numbers is executed from MIR at threshold 0 '
             'and at each listed threshold; z3 decides that the occurrences at the threshold are a sub-sequence of those at 0 and '
